@@ -353,6 +353,21 @@ def _add(module: Module, val: ModuleAttr) -> ModuleAttr:
                 ctr.pop(val.name)
         old._parent_module = None
 
+    # If `val` itself is already held under another name (`m.a = sig; m.b = sig`), it moves to its new one:
+    # an object has one name, and is held under that name only.
+    for key in [k for k, held in module.namespace.items() if held is val and k != val.name]:
+        module.namespace.pop(key)
+        for ctr in (
+            module.ports,
+            module.signals,
+            module.instances,
+            module.instarrays,
+            module.instbundles,
+            module.bundles,
+        ):
+            if ctr.get(key, None) is val:
+                ctr.pop(key)
+
     # Add it to the module namespace, and the type-specific container
     type_ctr[val.name] = val
     module.namespace[val.name] = val
